@@ -261,6 +261,24 @@ pub fn run(tier: Tier) -> i32 {
                 one_stream(&ctx, acc, l, &lang, syms, &thrs_deep)
             }
         }));
+        // function words (articles, half, dozen ...) and unknown source literals with hundred, one and a comma, each
+        // plain, '~' or '!', depth 3
+        {
+            let mut base: Vec<String> = vec![c.hundred.clone(), c.one.clone(), ",".to_string()];
+            for w in vocab::function_words(l).iter().map(|x| x.to_string()).chain(vocab::new_source_literals(l).into_iter().filter(|w| !w.contains(' '))) {
+                if !base.contains(&w) {
+                    base.push(w);
+                }
+            }
+            let mut fa: Vec<String> = base.clone();
+            fa.extend(base.iter().map(|w| format!("~{w}")));
+            fa.extend(base.iter().map(|w| format!("!{w}")));
+            total.merge(explore::all_sequences2(&fa, 3, |syms, acc| {
+                if syms.iter().any(|s| s.len() > 1 && (s.starts_with('~') || s.starts_with('!'))) {
+                    one_stream(&ctx, acc, l, &lang, syms, &thrs_deep)
+                }
+            }));
+        }
         // long streams: every pattern of <= 3 of those symbols repeated r times
         total.merge(explore::all_repetitions(&la, 3, 2..=rmax, |syms, acc| one_stream(&ctx, acc, l, &lang, syms, &thrs_deep)));
         total.sample(json!({"lang": l.code(), "stream": [a[0], a[nw + 1], a[2 * nw + 2]]}));
